@@ -13,7 +13,7 @@ CLAIMS = {
    text="Static analysis (exhaustive over a finite set of code sites): every optimizer rewrites/inspects every reference slot of the IR schema; "
         "the CSE key covers every behavioural field of the node classes it merges (exceptions re-verified structurally); folding guards every consulted "
         "operand against user-declared inputs and keeps the output type; both pipelines run the passes in order under the optimize flag; the spanning tree "
-        "stays inside one (signal, colour, source) group. Decides these necessary conditions, not observational equivalence of the two builds. A folded single-condition decider keeps `output constant if comparison else 0` (R9).",
+        "stays inside one (signal, colour, source) group. Decides these necessary conditions, not observational equivalence of the two builds. A folded single-condition decider keeps `output constant if comparison else 0` (R9). Also: condition-row fields enter the CSE key off the row being keyed, the constant table admits scalar constants only, the planner receives the re-pointed name table, the plan keeps every wire.",
    technique="IR-schema exhaustiveness over isinstance ladders (ast), def-use slices, sibling-pipeline comparison",
    ref="DESIGN.md §2 C10"),
  "C11": dict(
@@ -29,27 +29,27 @@ CLAIMS = {
         "static rules, each required to reach an error-severity diagnostic or raise (a recognised guard that only warns = downgraded; an anchor without the guard = not enforced); "
         "error() counts or raises on every CFG path; both pipelines use raise_errors=True and gate each stage; no broad handler swallows; mains write the result only after the success "
         "test; statement lists are visited on every path; type tables are exhaustive over the grammar's type keywords; checks cover every AST slot of their subject. "
-        "Decides that each rule is enforced in the single visitor every context goes through, not 'all embeddings' as such.",
+        "Decides that each rule is enforced in the single visitor every context goes through, not 'all embeddings' as such. Also: the signal validator accepts on table membership only, inferred types are never mutated in place, dynamic bundle selection validates the selected name.",
    technique="guard-chain extraction of diagnostic sites + role predicates, CFG must-pass-through, grammar/table exhaustiveness",
    ref="DESIGN.md §2 C14"),
  "C15": dict(
    text="Static analysis of the inliner: the set of ASTLowerer maps that statement lowering can mutate is computed over the call graph; for each, a snapshot must dominate the "
         "lowering of the callee body and a restore must lie on every normal exit (CFG, finally-aware); the parameter environment must be replaced, not merged; every id a declaration "
         "registers must have a per-instance counter in its backward slice; wildcard signals never become actual-argument types. Decides hygiene of the inliner's bookkeeping, not "
-        "equivalence with the manually inlined program.",
+        "equivalence with the manually inlined program. Also: name tables are restored from snapshots after a callee body, in-place retyping scans every name table, parameters are unbound after the call, memory ids are fresh per expansion and the memory maps are saved/restored.",
    technique="call-graph effect analysis + CFG dominance/must-pass-through for save/restore pairing + def-use slices for id freshness",
    ref="DESIGN.md §2 C15"),
  "C16": dict(
    text="Static analysis: the iteration-sequence function must match an accepted idiom (strict exclusive end per direction, append before advance, start from start, list order kept); "
         "analyzer and lowerer both draw from that one function; resolvers raise instead of defaulting; per-iteration scope save/cut-back for every map the body can mutate; iterator "
-        "immutable; declaration ids fresh per iteration; transformer passes start/stop/step/values in grammar order. Decides these necessary conditions, not equivalence with the unrolled program. Loop scope is restored by value for the names an iteration binds; the analyzer rewrites shared syntax nodes only with functions of the syntax (R6); resolvers prefer parameters over iterators (R7).",
+        "immutable; declaration ids fresh per iteration; transformer passes start/stop/step/values in grammar order. Decides these necessary conditions, not equivalence with the unrolled program. Loop scope is restored by value for the names an iteration binds; the analyzer rewrites shared syntax nodes only with functions of the syntax (R6); resolvers prefer parameters over iterators (R7). Also: explicit node ids contain an IR-level id, the iterator survives calls in the body (snapshot restore), memory maps are cut back per iteration.",
    technique="idiom matching over ast + CFG + call-graph effect analysis + def-use slices",
    ref="DESIGN.md §2 C16"),
  "C13": dict(
    text="Static analysis over constant-evaluated tables and slot traces: the allocatable list minus the exclusion set (which must name RESERVED_SIGNALS and WILDCARD_SIGNALS whenever the list "
         "contains one of them) can yield neither a wildcard nor the write-enable signal; the three reserved tables agree; the allocator returns pool members only; contributions to the exclusion "
         "sets are classified by the AST attribute they read (variable name vs signal name) and an explicit built-in signal name must reach it; explicit names pass name resolution unchanged. "
-        "Decides these table/flow clauses, not the renaming-invariance consequence. IR-derived signal properties of combinator placements pass through a name resolver (R4); the CSE key separates output types (R5).",
+        "Decides these table/flow clauses, not the renaming-invariance consequence. IR-derived signal properties of combinator placements pass through a name resolver (R4); the CSE key separates output types (R5). Also: one counter for internal names (no captured piece of a registry), a usage entry answers for its own node only, the variable's name is never a signal candidate when a type is known, bundle-literal members are registered.",
    technique="constant evaluation of tables + def-use slot tracing with kind classification + guard-chain analysis",
    ref="DESIGN.md §2 C13"),
  "C17": dict(
@@ -57,7 +57,7 @@ CLAIMS = {
         "expansion; the default search path is constant-evaluated with __file__ bound to the module's location and every documented spelling of every bundled library import must resolve "
         "through an absolute entry; the selection-only library functions (abs, sign, min, max, clamp, between, skeleton of mod_positive) are parsed with the repository grammar and checked "
         "on one representative of every weak ordering of their arguments and 0, which is an exact finite abstraction for bodies built from comparisons and selections. lerp, the bit "
-        "functions, div_floor and the arithmetic of mod_positive are not decided (32-bit identities need a solver or evaluation); 'import == pasted text' beyond R1/R2 is not decided. Folding of `cond : value` deciders keeps a selected 0 (R4, shared with C10-R9).",
+        "functions, div_floor and the arithmetic of mod_positive are not decided (32-bit identities need a solver or evaluation); 'import == pasted text' beyond R1/R2 is not decided. Folding of `cond : value` deciders keeps a selected 0 (R4, shared with C10-R9). Also: the front ends hand the parser a source name that keeps the file's directory; bit helpers fold like run-time shifts.",
    technique="CFG dominance + constant evaluation of the search path + order-type enumeration over Lark parse trees of lib/math.facto",
    ref="DESIGN.md §2 C17"),
  "C09": dict(
@@ -65,7 +65,7 @@ CLAIMS = {
         "layout engine must be a solver value of the entity's own singleton-domain variables, the fixed table entry, or guarded by not-fixed; a unit typestate (tile until the conversion, "
         "centre after) is checked for every centre-reader reachable (exact call graph) from the phases that run before the conversion; who-may-delete over all deletion sites of placements "
         "(keys must derive from the pole flag, unused memory gates or the inlined decider id; a committed positive fixture keeps the matcher honest); static properties are copied except "
-        "bookkeeping keys. Emitted coordinates under solver outcomes are covered only through this structural argument; whether draftsman accepts a property is not decided.",
+        "bookkeeping keys. Emitted coordinates under solver outcomes are covered only through this structural argument; whether draftsman accepts a property is not decided. Also: the declared tile size takes precedence over the collision-box estimate (with the differing prototypes listed from game data).",
    technique="def-use slices + guard-chain analysis + call-graph reachability with a unit typestate + who-may-delete table",
    ref="DESIGN.md §2 C09"),
  "C08": dict(
@@ -73,13 +73,13 @@ CLAIMS = {
         "footprints; every literal (prototype, footprint) pair and the pole table cover the prototype's collision box; every wire-span default is within the reach of every emitted entity type "
         "and of every prototype that can become a relay node; the router answers 'no relay' only within the limit and re-checks each hop; wires are materialised only between existing entities "
         "with one colour. NOT decided: wire reach and overlap under every layout outcome (span limits are soft in the solver, explicit memory/latch wires bypass routing, the fallback grid "
-        "ignores fixed entities when placing the rest) — these depend on CP-SAT's answer.",
+        "ignores fixed entities when placing the rest) — these depend on CP-SAT's answer. Also: the tile grid is rebuilt between every placement-changing step and connection planning (callee summaries), a relay is registered at the position its pole is placed.",
    technique="CFG dominance + constant tables checked against draftsman prototype data + guard-chain analysis",
    ref="DESIGN.md §2 C08"),
  "C18": dict(
    text="Static analysis with the game-data tables as oracle: POWER_POLE_CONFIG rows vs prototype data (supply area, copper reach, collision box); grid step expression <= 2 x radius in both axes and "
         "first-pole offset; option gating by CFG dominance and value flow from both CLIs; pole creators enumerated; copper connection guarded by the reach of both poles; trim decisions guarded by "
-        "the grid-pole flag and the coverage test. NOT decided: coverage of every consumer for a given layout, single electric network, behaviour unchanged by poles. The grid's bounding-box accumulators start on the origin side, as required by the recognised extent formulas.",
+        "the grid-pole flag and the coverage test. NOT decided: coverage of every consumer for a given layout, single electric network, behaviour unchanged by poles. The grid's bounding-box accumulators start on the origin side, as required by the recognised extent formulas. Also: no placement is removed once connections are planned; grid poles keep their positions on the decomposition path (recorded finding).",
    technique="constant tables vs draftsman prototype data + CFG dominance + guard-chain analysis + value-flow through the pipelines",
    ref="DESIGN.md §2 C18"),
  "C19": dict(
@@ -87,7 +87,7 @@ CLAIMS = {
         "statement forms) or be one of three frozen allow-list entries with reasons; id()/hash() only as lookup keys; every write to process-global state (draftsman signal table, os.environ, "
         "module-level mutables) is classified by whether the written value is program-derived, against the decision-reads of the same state; logical configuration values have no position in "
         "their backward slice and position-derived spanning-tree keys may only add, never replace, a recorded edge colour. Independence from solver time budget/CPU load as such is not decided; "
-        "R4 is the structural reason positions cannot leak into logic. Insertion order taken from an unsorted set iteration taints the container it fills; the importing file's directory is searched before cwd-relative entries (R5).",
+        "R4 is the structural reason positions cannot leak into logic. Insertion order taken from an unsorted set iteration taints the container it fills; the importing file's directory is searched before cwd-relative entries (R5). Also: module-level mutables are not mutated through local aliases; relay reuse is booked (network partition independent of placement); the source name does not depend on the working directory.",
    technique="set-type inference lint + effect analysis on process-global state + def-use layering slices",
    ref="DESIGN.md §2 C19"),
  "C05": dict(
@@ -95,7 +95,7 @@ CLAIMS = {
         "and IRLatchWrite; every latch-building handler must select its condition rows by op.latch_type (sibling contradiction check); the hold-inversion table is evaluated as data and must be "
         "total over the comparators lowering can pass and equal to logical negation over the integers; the feedback wire colour must equal the colour the feedback row and the multiplier read, "
         "external rows read the other colour, and the planner's wire injection must not overwrite the preset selections. NOT decided: the hold/priority behaviour of the emitted rows under "
-        "Factorio's evaluation order and any behaviour over input histories.",
+        "Factorio's evaluation order and any behaviour over input histories. Also: value, set and reset of a latch write are exported (constants feeding them are placed); operand wire selections default to both colours.",
    technique="grammar-to-IR value-flow trace + sibling-handler contradiction check + constant-table semantics + colour agreement over dict displays",
    ref="DESIGN.md §2 C05"),
  "C07": dict(
@@ -103,21 +103,21 @@ CLAIMS = {
         "stdout / -o; the success result must be exactly to_string()/json.dumps(to_dict()) of the emitted blueprint; emission iterates all placements and wires, skips a wire only for a "
         "missing endpoint, errors on a missing entity, dispatches each combinator type; bag-key agreement: every configuration key any producer writes for a combinator kind (and every "
         "condition-row key) is read by that kind's configurator and vice versa. NOT decided: what draftsman's exporter writes for the configured entities (in this image its to_dict() drops "
-        "control_behavior — third-party run-time behaviour, outside the reach of source analysis of /repo), and equality of behaviour between decoded text and plan.",
+        "control_behavior — third-party run-time behaviour, outside the reach of source analysis of /repo), and equality of behaviour between decoded text and plan. Also: the materialiser's configuring loops have no early exit, the plan records every wire it is given (duplicates only on ends, sides and colour), stdout carries the result only (verbosity-guarded echoes, logging on stderr).",
    technique="sibling-implementation trace comparison + writer/reader bag-key agreement + CFG/guard-chain checks",
    ref="DESIGN.md §2 C07"),
  "C03": dict(
    text="Static analysis: the two gate placements are compared as data (same signal, same constant, comparators complementary over the integers around the constant, copy-count, same output); "
         "typestate of the enable in the lowerer (every signal-valued enable is retyped to the gates' signal; the two constant-one recognisers agree; the enable sinks on both gates; the signal "
         "is reserved and excluded from allocation); the two explicit wires and the planner's colour locks agree; reads are sourced by the hold gate; gate keys are read by the configurator; "
-        "both optimizers re-point both operands of a memory write. NOT decided: holding across an enable edge, one-tick glitches, arbitrary data expressions, readers not disturbing the value.",
+        "both optimizers re-point both operands of a memory write. NOT decided: holding across an enable edge, one-tick glitches, arbitrary data expressions, readers not disturbing the value. Also: only node classes placed with an output signal of their own are retyped in place (a memory read is not), the feedback rewrite touches reads of its own cell only.",
    technique="table semantics over placement literals + CFG typestate + colour agreement + bag-key agreement + IR-schema slots",
    ref="DESIGN.md §2 C03"),
  "C04": dict(
    text="Static analysis (thin, stated as such): guard dominance of the arithmetic-feedback rewrite; on every path that records the optimisation the gates are flagged, the source and every "
         "recorded read re-pointed (CFG must-pass-through); the feedback flag has a reader that adds an output->input self-wire whose colour equals the planner's lock; chains register last->first; "
         "the dependence walk and first-consumer search inspect both operands; reverse/self edges are classified bidirectional without extra exclusions and routed directly. NOT decided: the latency L, "
-        "value(t+L) = f(value(t)), equality of folded and unfolded forms — tick dynamics.",
+        "value(t+L) = f(value(t)), equality of folded and unfolded forms — tick dynamics. Also: old producers of the cell and of its earlier reads are cleared before the arithmetic node is added; colour entries under reversed or spanning-tree keys never replace a recorded edge.",
    technique="CFG dominance/must-pass-through + writer/reader key agreement + guard-chain analysis",
    ref="DESIGN.md §2 C04"),
  "C06": dict(
@@ -134,7 +134,7 @@ CLAIMS = {
         "counter that advances per new key; the id of the edge's own source group reaches the relay router on both routing paths; relays are offered for reuse only after can_route_network "
         "(whose body must be `colour free or same id`) and every hop used is recorded; the conflict graph groups by (sink, resolved signal), exempts only same-merge pairs and pushes the opposite "
         "colour to neighbours. NOT decided: non-interference itself — two sources of different signals feeding one sink on one colour join their networks by design; whether anything of P becomes "
-        "visible in Q is a property of the whole wired graph under a given layout.",
+        "visible in Q is a property of the whole wired graph under a given layout. Also: the returned-entity side channel is reset before and bound after each call without further conditions; parameters bound for a call are unbound after it.",
    technique="CFG/guard-chain checks on the network-id and relay-reuse code + structural check of the conflict-graph construction",
    ref="DESIGN.md §2 C12"),
  "C01": dict(
@@ -143,7 +143,7 @@ CLAIMS = {
         "analyzer, lowerer, DSL->Factorio map) and dispatch; operand order from the AST through builder, IR, placement keys to the first/second slots of the emitted combinator; the builder "
         "terms of && / || are extracted per path and evaluated in the checker's own combinator algebra over {-2..2}^2 against the documented truth value; chain folding only over one operator; "
         "the result-type decision table; spanning-tree colour keys never replace a logical edge's colour. NOT decided: clause (e) — that the wiring delivers each operand alone on the colour "
-        "the combinator reads, constant inlining, settling for every input. A typed literal keeps its value expression on every lowering path (R8).",
+        "the combinator reads, constant inlining, settling for every input. A typed literal keeps its value expression on every lowering path (R8). Also: no decider condition is assembled with a constant and a second signal together (constant-first comparisons are mirrored, rows of two constants are decided at emission and compare the placeholder with 0), literal operands are recorded as constants, operand wire selections default to both colours, copy-count mode is dropped only for a reference that was inlined.",
    technique="grammar-model ladder check + table agreement + def-use operand-order trace + extracted-term evaluation in a small algebra",
    ref="DESIGN.md §2 C01"),
  "C02": dict(
@@ -151,14 +151,14 @@ CLAIMS = {
         "anything for any(), identical in the lowerer and in the inlined entity condition); the separation flag is set wherever a signal-valued scalar/condition meets a bundle, forwarded by "
         "the placer for both node kinds, consumed by the planner which locks one input to the non-default colour, and the wire selection stored for an operand with a resolved source is a "
         "single looked-up colour; a constant literal member is recorded once (CFG); duplicate detection treats nested-bundle members like direct members (sibling-branch check). NOT decided: "
-        "that no foreign signal is present on the bundle's wire for a given program/layout, merge colouring outcomes, filter values at run time.",
+        "that no foreign signal is present on the bundle's wire for a given program/layout, merge colouring outcomes, filter values at run time. Also: every announced scalar member of a bundle literal is delivered (must-pass over the element loop), nested merges are expanded transitively, `-b` is decided member-wise before scalar nodes are built, a defaulted constant is extracted with the symbol resolver, both decider forms (gate, filter) and both sides of a gate condition get wire separation, explicit member names pass the resolver on the name alone.",
    technique="table check of wildcard roles + flag-chain def-use + CFG exclusivity + sibling-branch comparison",
    ref="DESIGN.md §2 C02"),
  "C20": dict(
    text="Static analysis (thin): names are marked referenced only on the identifier read path; every anchor placement is followed on all paths by the wiring call (CFG), anchor ids are a "
         "function of (signal, alias), constants are skipped only under their own name; debug_info keys written by the placers are read by the description formatter (bag agreement), declared "
         "names override node ids, inputs and anchors are labelled; the is_output formula; every reason to materialise a constant is still a disjunct. NOT decided: that the anchor's network "
-        "carries exactly the result's value. Names follow their node through node-eliminating passes (R6); the declared-name override of a label has no extra condition.",
+        "carries exactly the result's value. Names follow their node through node-eliminating passes (R6); the declared-name override of a label has no extra condition. Also: bundle names follow replacements and enter the alias map, the placeholder label is used only without a variable, the parser receives the source with its leading lines (line numbers), later reads of a folded cell are wired.",
    technique="CFG must-pass-through + bag-key agreement + formula/guard-chain checks",
    ref="DESIGN.md §2 C20"),
 }
